@@ -1324,3 +1324,213 @@ def wrapped_pattern(model, text, rid):
         raise AnalysisError("anchor vanished: regex.compile call in rule._map")
     v, flags = res.compiles[-1]
     return v, flags
+
+
+# ---------------------------------------------------------------------------
+# Registry keys of all registrations, decorator form or call form (C19 unique-name).
+# Tolerant: needs no RuleBase (which refuses call-form registrations), answers None where the
+# name of the registered callable cannot be derived.
+
+
+def _wraps_param(fn):
+    """parameter name p when nested def *fn* is decorated with [functools.]wraps(p), else None"""
+    for d in fn.decorator_list:
+        if isinstance(d, ast.Call) and _callee_name(d.func) == "wraps" and len(d.args) == 1 \
+                and isinstance(d.args[0], ast.Name) and not d.keywords:
+            return d.args[0].id
+    return None
+
+
+def _touches_name_attr(fn):
+    for n in ast.walk(fn):
+        if isinstance(n, ast.Attribute) and n.attr in ("__name__", "__wrapped__") and \
+                isinstance(n.ctx, (ast.Store, ast.Del)):
+            return True
+        if isinstance(n, ast.Call) and _callee_name(n.func) in ("update_wrapper", "setattr"):
+            return True
+    return False
+
+
+def _returned_inner_def(fn):
+    """the one nested FunctionDef every return statement of *fn* returns by name, else None"""
+    inner = {st.name: st for st in fn.body if isinstance(st, ast.FunctionDef)}
+    rets = []
+
+    def walk(stmts):
+        for st in stmts:
+            if isinstance(st, (ast.FunctionDef, ast.AsyncFunctionDef, ast.ClassDef, ast.Lambda)):
+                continue
+            if isinstance(st, ast.Return):
+                rets.append(st)
+            for f in ("body", "orelse", "finalbody", "handlers"):
+                sub = getattr(st, f, None)
+                if isinstance(sub, list):
+                    walk([x for x in sub if isinstance(x, ast.AST)])
+    walk(fn.body)
+    if not rets:
+        return None
+    names = set()
+    for r in rets:
+        if not isinstance(r.value, ast.Name) or r.value.id not in inner:
+            return None
+        names.add(r.value.id)
+    if len(names) != 1:
+        return None
+    # a nested def bound twice, or rebound by an assignment, is outside the idiom
+    nm = names.pop()
+    binds = [st for st in ast.walk(fn) if (isinstance(st, ast.FunctionDef) and st is not fn and st.name == nm)
+             or (isinstance(st, ast.Name) and st.id == nm and isinstance(st.ctx, ast.Store))]
+    if len(binds) != 1:
+        return None
+    return inner[nm]
+
+
+def registration_keys(model):
+    """[(key or None, module, node, form)] for every registration of a production in the modules
+    that use rule(), in source order; form is 'decorator' or 'call'.  The key is derived from
+    rule.py's own store into the registry (``rules[<f>.__name__] = ...``)."""
+    rm = model.mod("ctparse.rule")
+    rule_fn = None
+    for st in rm.tree.body:
+        if isinstance(st, ast.FunctionDef) and st.name == "rule":
+            rule_fn = st
+    if rule_fn is None:
+        raise AnalysisError("anchor vanished: rule() in ctparse/rule.py")
+    fw = _returned_inner_def(rule_fn)
+    if fw is None or len(fw.args.args) != 1 or _touches_name_attr(rule_fn):
+        return None
+    fparam = fw.args.args[0].arg
+    stores = [n for n in ast.walk(fw) if isinstance(n, ast.Subscript) and isinstance(n.ctx, ast.Store)
+              and isinstance(n.value, ast.Name) and n.value.id == "rules"]
+    if len(stores) != 1:
+        return None
+    key = stores[0].slice
+    if not (isinstance(key, ast.Attribute) and key.attr == "__name__" and isinstance(key.value, ast.Name)
+            and key.value.id == fparam):
+        return None
+    wr = _returned_inner_def(fw)
+    if wr is None:
+        # fwrapper returns something else (e.g. f itself): name preserved only in that case
+        rets = [n for n in ast.walk(fw) if isinstance(n, ast.Return)]
+        if len(rets) == 1 and isinstance(rets[0].value, ast.Name) and rets[0].value.id == fparam:
+            rule_ret = lambda nm: nm  # noqa: E731
+        else:
+            return None
+    elif _wraps_param(wr) == fparam:
+        rule_ret = lambda nm: nm  # noqa: E731
+    elif _wraps_param(wr) is None and not wr.decorator_list:
+        rule_ret = lambda nm, _n=wr.name: _n  # noqa: E731
+    else:
+        return None
+
+    out = []
+    for mn in sorted(model.mods):
+        mod = model.mods[mn]
+        if mn == "ctparse.rule" or not _uses_rule(mod) or "/tests/" in "/" + mod.rel:
+            continue
+        # only modules that import the decorator itself (a local variable called `rule` is not it)
+        if not any(isinstance(st, ast.ImportFrom) and (st.module or "").split(".")[-1] == "rule"
+                   and any(a.name == "rule" and a.asname in (None, "rule") for a in st.names)
+                   for st in mod.tree.body):
+            continue
+        top = {}
+        for st in mod.tree.body:
+            if isinstance(st, ast.FunctionDef):
+                top.setdefault(st.name, []).append(st)
+            elif isinstance(st, ast.Assign):
+                for t in st.targets:
+                    if isinstance(t, ast.Name):
+                        top.setdefault(t.id, []).append(st)
+
+        def is_rule_call(c):
+            return isinstance(c, ast.Call) and isinstance(c.func, ast.Call) and \
+                _callee_name(c.func.func) == "rule" and len(c.args) == 1 and not c.keywords
+
+        def through_decorators(fn, upto=None):
+            nm = fn.name
+            for d in reversed(fn.decorator_list):
+                if d is upto:
+                    return nm
+                if isinstance(d, ast.Call) and _callee_name(d.func) == "rule":
+                    nm = rule_ret(nm)
+                else:
+                    nm = helper_ret(d, nm)
+                if nm is None:
+                    return None
+            return nm
+
+        def helper_ret(fexpr, argname, argpos=0):
+            """__name__ of helper(<callable named argname>)"""
+            if not isinstance(fexpr, ast.Name):
+                return None
+            defs = top.get(fexpr.id, [])
+            if len(defs) != 1 or not isinstance(defs[0], ast.FunctionDef) or defs[0].decorator_list:
+                return None
+            h = defs[0]
+            if _touches_name_attr(h):
+                return None
+            inner = _returned_inner_def(h)
+            if inner is None:
+                return None
+            wp = _wraps_param(inner)
+            if wp is None:
+                return inner.name if not inner.decorator_list else None
+            params = [a.arg for a in h.args.args]
+            if len(inner.decorator_list) == 1 and wp in params and params.index(wp) == argpos:
+                return argname
+            return None
+
+        def name_of(e, depth=0):
+            if depth > 8:
+                return None
+            if isinstance(e, ast.Lambda):
+                return "<lambda>"
+            if isinstance(e, ast.Name):
+                defs = top.get(e.id, [])
+                if len(defs) != 1:
+                    return None
+                d = defs[0]
+                if isinstance(d, ast.FunctionDef):
+                    return through_decorators(d)
+                if isinstance(d, ast.Assign) and len(d.targets) == 1:
+                    return name_of(d.value, depth + 1)
+                return None
+            if is_rule_call(e):
+                inner = name_of(e.args[0], depth + 1)
+                return None if inner is None else rule_ret(inner)
+            if isinstance(e, ast.Call) and len(e.args) >= 1 and not e.keywords and \
+                    not any(isinstance(a, ast.Starred) for a in e.args):
+                # helper(f, ...): the callable is looked for at each position whose parameter is wrapped
+                for pos, a in enumerate(e.args):
+                    an = name_of(a, depth + 1) if isinstance(a, (ast.Name, ast.Lambda, ast.Call)) else None
+                    if an is not None:
+                        r = helper_ret(e.func, an, pos)
+                        if r is not None:
+                            return r
+                return helper_ret(e.func, "", -1) if len(e.args) else None
+            return None
+
+        deco_calls = {}
+        for st in mod.tree.body:
+            if isinstance(st, ast.FunctionDef):
+                for d in st.decorator_list:
+                    if isinstance(d, ast.Call) and _callee_name(d.func) == "rule":
+                        deco_calls[id(d)] = (st, d)
+        regs = []
+        for n in ast.walk(mod.tree):
+            if isinstance(n, ast.Call) and _callee_name(n.func) == "rule":
+                if id(n) in deco_calls:
+                    st, d = deco_calls[id(n)]
+                    regs.append((n.lineno, through_decorators(st, upto=d), mod, st, "decorator"))
+                else:
+                    regs.append((n.lineno, None, mod, n, "call"))
+        # call form: rule(...)(X) anywhere at module level (assignment value or expression statement)
+        for st in mod.tree.body:
+            if isinstance(st, (ast.Assign, ast.Expr, ast.AnnAssign)) and st.value is not None:
+                for n in ast.walk(st.value):
+                    if is_rule_call(n):
+                        for i, r in enumerate(regs):
+                            if r[3] is n.func:
+                                regs[i] = (r[0], name_of(n.args[0]), mod, n.func, "call")
+        out.extend(sorted(regs, key=lambda r: r[0]))
+    return [(k, m, nd, form) for (_ln, k, m, nd, form) in out]
